@@ -180,6 +180,11 @@ def check(repo: Repo) -> Result:
 
     r5 = res.rule("C17-R5", "the conversion factor handed to every route is the floating-point ratio old scale / new scale, never cast to the data's (integer) dtype", floor=3)
     share(res, r5, "C02", lambda t: c02.ratio_direction(repo, t), ["C02-R4"], min_keys=3)
+
+    from rules import c16
+
+    r6 = res.rule("C17-R6", "a list of quantities in mixed units is converted element by element with the array conversion (in_units), which keeps each element's width; a route through Python scalars (to_value / float) widens float32 / float16 elements (shared with C16-R2)", floor=2)
+    share(res, r6, "C16", lambda t: c16.accessors(repo, t), ["C16-R2"], want=lambda k: k.startswith("coerce-list"), min_keys=2)
     return res
 
 
@@ -217,4 +222,6 @@ MUTANTS = [
     Mutant("in-base-skips-unit-factor", ARR, "unyt_array.in_base", "ret = self.v * conv", "ret = self.v\n        if conv != 1:\n            ret = ret * conv", ("C17-R3",)),
     Mutant("factor-cast-to-data-dtype", UO, "_get_conversion_factor", "    ratio = old_basevalue / new_basevalue\n", "    ratio = old_basevalue / new_basevalue\n    if np.dtype(dtype).kind != \"i\":\n        ratio = np.dtype(dtype).type(ratio)\n", ("C17-R5",)),
     Mutant("in-units-cast-before-multiply", ARR, "unyt_array.in_units", "np.asarray(self.ndview * conversion_factor, dtype=new_dtype)", "np.multiply(self.ndview.astype(new_dtype), conversion_factor)", ("C17-R1",)),
+    Mutant("coerce-through-python-scalars", ARR, "_coerce_iterable_units", "ret.append(datum.in_units(ff.units))", "ret.append(datum.to_value(ff))", ("C17-R6",)),
+    Mutant("equivalence-floor-division", "unyt/equivalencies.py", "ThermalEquivalence._convert", "return np.true_divide(x, pc.kboltz, out=self._get_out(x))", "return np.floor_divide(x, pc.kboltz, out=self._get_out(x))", ("C17-R4",)),
 ]
